@@ -312,8 +312,8 @@ func (tnc *TNC) runControlLoop() error {
 					_, err = tnc.ctrl.Write(data)
 				}
 
-				if err != nil {
-					panic(err) // FIXME
+				if err != nil && debugEnabled() {
+					log.Println(err) // The TNC connection was closed (most likely). The read side will notice.
 				}
 			}
 		}
